@@ -590,17 +590,27 @@ def marker(ctx: Ctx, rule="R-C07-MARKER") -> None:
     v = r.value
     ok = False
     why = f"check is `{unparse(v)}`"
+    v = C.inline_locals(chk, v) or v
+
+    def window(e):
+        """k for `len(cls.KEY) + k`"""
+        if isinstance(e, ast.BinOp) and isinstance(e.op, ast.Add):
+            l, rr = e.left, e.right
+            if isinstance(rr, ast.Constant) and unparse(l) == "len(cls.KEY)":
+                return rr.value
+            if isinstance(l, ast.Constant) and unparse(rr) == "len(cls.KEY)":
+                return l.value
+        return None
+
     if isinstance(v, ast.Compare) and isinstance(v.left, ast.Call) and isinstance(v.left.func, ast.Attribute) and v.left.func.attr == "find" and len(v.left.args) == 3:
         a0, a1, a2 = v.left.args
-        from .ladder import affine
-        af = None
-        if isinstance(a2, ast.BinOp) and isinstance(a2.op, ast.Add):
-            l, rr = a2.left, a2.right
-            if isinstance(rr, ast.Constant) and unparse(l) == "len(cls.KEY)":
-                af = rr.value
-            elif isinstance(l, ast.Constant) and unparse(rr) == "len(cls.KEY)":
-                af = l.value
+        af = window(a2)
         ok = dotted(a0) == "cls.KEY" and C.is_const(a1, 0) and af is not None and 2 <= af <= 3 and isinstance(v.ops[0], ast.NotEq) and unparse(v.comparators[0]) == "-1"
+        why = f"window is [0, len(KEY)+{af}) (needs to cover offset 2 of compact JSON and nothing beyond the first key)"
+    elif isinstance(v, ast.Compare) and isinstance(v.ops[0], ast.In) and dotted(v.left) == "cls.KEY" and isinstance(v.comparators[0], ast.Subscript) and isinstance(v.comparators[0].slice, ast.Slice):
+        sl = v.comparators[0].slice  # KEY in string[:len(KEY)+k]
+        af = window(sl.upper) if sl.upper is not None else None
+        ok = (sl.lower is None or C.is_const(sl.lower, 0)) and sl.step is None and af is not None and 2 <= af <= 3 and isinstance(v.comparators[0].value, ast.Name)
         why = f"window is [0, len(KEY)+{af}) (needs to cover offset 2 of compact JSON and nothing beyond the first key)"
     elif isinstance(v, ast.Call) and isinstance(v.func, ast.Attribute) and v.func.attr == "startswith":
         ok = any(isinstance(x, ast.Attribute) and x.attr == "KEY" for x in ast.walk(v))
